@@ -326,6 +326,12 @@ func aperEncDomain(e *emitter, roundTrip bool) {
 		}
 		emit(name, v, e.rng.Intn(2) == 0)
 	}
+	// 3. synthetic schemas: the parts of the codec that no NGAP type uses (apersyn.go)
+	g.longMax = 32768
+	if e.thorough() {
+		g.longMax = 0
+	}
+	aperSynEnc(e, g, roundTrip)
 }
 
 func safeMarshal(v reflect.Value, params string) (b []byte, err error) {
@@ -412,4 +418,6 @@ func aperDecDomain(e *emitter) {
 		}
 		dec("NGAPPDU", b)
 	}
+	// synthetic schemas: the parts of the decoder that no NGAP type uses (apersyn.go)
+	aperSynDec(e, g)
 }
